@@ -51,12 +51,19 @@ def run(ctx):
                        'an entry point that takes a single event off its list (unregistration) leaves the wake-up of the others alone',
              floor=2)
     ctx.rule('R-C08g', 'NULL-CONTRADICTION in iv_event.c', floor=0)
+    ctx.rule('R-C08h', 'BATCH-DRAINED: every event taken off the pending list has its handler called before the runner returns: in '
+                       'every entry point that reaches the handler call, every path from the detach of the pending list to a return '
+                       'passes, after the batch was last filled, a point at which the local batch is known to be empty (its emptiness '
+                       'test came out true, directly or through a value that implies it; the fact is stable, only this thread links '
+                       'to its local head), or splices what is left back onto the owner\'s pending list under the mutex and then '
+                       'issues a wake-up of the owner', floor=4)
     derive_keys(ctx.prog)
     ctx.section(post)
     ctx.section(runner)
     ctx.section(who_runs)
     ctx.section(transport_follows_count)
     ctx.section(wake_outlives_pending)
+    ctx.section(batch_drained)
 
 
 def pt(e):
@@ -628,6 +635,13 @@ def _unlinked_before(g, cs, ls):
             v = cell(e['lhs'])
             if v is not None:
                 rhs = e.get('rhs') if e.get('op') == '=' else None
+                if rhs is not None and isinstance(strip(rhs), dict) and (strip(rhs).get('k') == 'null' or
+                                                                         (strip(rhs).get('k') == 'int' and strip(rhs).get('v') == 0)):
+                    # the null pointer designates no event (no handler is called through it): nothing is owed for it,
+                    # the demand is decided by the other definitions that reach the call
+                    st = forget_var(st, v)
+                    st[v] = ('U', frozenset())
+                    return st
                 ids = _ident(rhs) - {v} if rhs is not None else frozenset()
                 src = [w for w in st if w != v and (w in ids or (ids & st[w][1]))]
                 track = rhs is not None and (_designates_event(rhs) or bool(src))
@@ -878,6 +892,266 @@ def wake_outlives_pending(ctx):
 
 
 # --------------------------------------------------------------------------
+# R-C08h: what was detached is delivered before the runner returns
+# --------------------------------------------------------------------------
+
+def _local_cell(x):
+    """a plain local / parameter, or a member selected with `.` from a local aggregate (`b.more`): its spelling"""
+    y = strip(x)
+    if not isinstance(y, dict):
+        return None
+    if y.get('k') == 'var':
+        return y['name'] if y.get('vk') in ('local', 'param') else None
+    m = y
+    while isinstance(m, dict) and m.get('k') == 'member' and not m.get('arrow'):
+        m = strip_load(m['base'])
+    if y.get('k') == 'member' and isinstance(m, dict) and m.get('k') == 'var' and m.get('vk') in ('local', 'param'):
+        return canon(y)
+    return None
+
+
+def _wakes_owner(e):
+    """a wake-up primitive applied to a state's own local task / kick raw event, or the poll method's event_send"""
+    args = e.get('args') or []
+    return (e.get('callee') in WAKE and bool(args) and last_member(h08.member_of(args[0])) in (K.LOCAL, K.KICK)) \
+        or (e['ev'] == 'call' and callback_kind(e) == ('method', 'event_send'))
+
+
+def _batch_known_empty(g, batches, ls):
+    """Forward must-analysis for the local list head(s) the pending list is detached to.  State (E, W, I0, I1):
+    E  = the batch is known to be empty: nothing was detached to it yet, or it was found empty since it was last
+         filled.  The fact is stable: nobody but this thread links anything to the local head (posters queue on the
+         pending list, and only events whose own link reads unqueued), unregistration and the runner only take
+         elements off; it is therefore kept across unlock / handler calls and dropped only where this thread fills
+         the batch again.
+    W  = what was left of the batch was spliced back onto the owner's pending list and no wake-up was issued since.
+    I0 / I1 = the locals v for which `v == 0` / `v != 0` implies that the batch is empty (a sampled emptiness test,
+         its negation, a constant stored where the answer was known, the pointer to the element that was popped,
+         and && / || / ! / ?: combinations and copies of these).  With E every local is in both."""
+    # locals whose address escapes: passed to a call that was not entered, or stored (an out-parameter of an inlined
+    # helper has been substituted: `*&v = x` is `v = x`)
+    addr_taken = set()
+    for e in g.events():
+        if e['ev'] == 'call':
+            srcs = e.get('args') or []
+        elif e['ev'] == 'store' and e.get('rhs') is not None:
+            if e.get('is_param') and h08.var_name(e['lhs']) is not None:
+                # the argument copy of an inlined helper: dead when every use of the parameter was substituted
+                pn = h08.var_name(e['lhs'])
+                if not any(x.get('k') == 'var' and x.get('name') == pn for e2 in g.events() if e2 is not e and e2['ev'] != 'enter'
+                           for x in walk(e2)) and not any(
+                        x.get('k') == 'var' and x.get('name') == pn for b in g.blocks.values()
+                        if b.term and b.term.get('cond') is not None for x in walk(b.term['cond'])):
+                    continue
+            srcs = [e['rhs']]
+        else:
+            continue
+        for a in srcs:
+            addr_taken |= {h08.var_name(x['e']) for x in walk(a) if x.get('k') == 'addr'} - {None}
+
+    # the destination of the detach under every spelling: `&events`, and a pointer local that only ever holds that address
+    names = set(batches)
+    defs = {}
+    for e in g.events():
+        if e['ev'] == 'store' and h08.var_name(e['lhs']) is not None:
+            defs.setdefault(h08.var_name(e['lhs']), []).append(e)
+    for v, ds in defs.items():
+        if len(ds) == 1 and ds[0].get('op') == '=' and ds[0].get('rhs') is not None and v not in addr_taken:
+            r = strip(ds[0]['rhs'])
+            if isinstance(r, dict) and r.get('k') == 'addr' and (canon(r) in names or v in names):
+                names |= {v, canon(r)}
+
+    def is_batch(x):
+        return h08.list_class(x, names) == 'batch' or (isinstance(strip(x), dict) and canon(strip(x)) in names)
+
+    def impl(x, st):
+        """(x == 0 implies empty, x != 0 implies empty)"""
+        E, W, I0, I1 = st
+        if E:
+            return (True, True)
+        y = strip(x)
+        if not isinstance(y, dict):
+            return (False, False)
+        k = y.get('k')
+        if k == 'paren' and isinstance(y.get('e'), dict):
+            return impl(y['e'], st)
+        if k == 'int':
+            return (y['v'] != 0, y['v'] == 0)       # vacuous on the side the constant is not on
+        if k == 'null':
+            return (False, True)
+        if k in ('container_of', 'addr'):
+            return (True, False)                    # an object's address is not null
+        c = _local_cell(x)
+        if c is not None:
+            return (c in I0, c in I1)
+        was = None
+        z = x
+        while isinstance(z, dict):
+            if z.get('_was') is not None:
+                was = z['_was']
+                break
+            if z.get('k') in ('load', 'cast', 'paren', 'stmtexpr') and isinstance(z.get('e'), dict):
+                z = z['e']
+            else:
+                break
+        if k == 'call' and y.get('callee') == 'iv_list_empty' and y.get('args') and is_batch(y['args'][0]):
+            return (False, True)
+        if k == 'un' and y.get('op') == '!':
+            a = impl(y['e'], st)
+            return (a[1], a[0])
+        if k == 'assign' and y.get('op') == '=':
+            # `(v = x)` used as a value: the store was already carried out as an event of the block
+            return impl(y['l'], st)
+        if k == 'bin':
+            op = y.get('op')
+            if op in ('==', '!='):
+                l, r = y['l'], y['r']
+                for a, b in ((l, r), (r, l)):
+                    sb = strip(b)
+                    if isinstance(sb, dict) and (sb.get('k') == 'null' or (sb.get('k') == 'int' and sb['v'] == 0)):
+                        ia = impl(a, st)
+                        return ia if op == '!=' else (ia[1], ia[0])
+                    # open-coded emptiness test of the batch: BATCH.next == &BATCH
+                    sa = strip(a)
+                    if isinstance(sa, dict) and sa.get('k') == 'member' and sa.get('record') == 'iv_list_head' \
+                            and sa.get('field') in ('next', 'prev') and is_batch(_head_of(sa)) and is_batch(b):
+                        return (False, True) if op == '==' else (True, False)
+                return (False, False)
+            if op == '&&':
+                a, b = impl(y['l'], st), impl(y['r'], st)
+                return (a[0] and b[0], a[1] or b[1])
+            if op == '||':
+                a, b = impl(y['l'], st), impl(y['r'], st)
+                return (a[0] or b[0], a[1] and b[1])
+            return (False, False)
+        if k == 'cond':
+            a, b = impl(y['a'], st), impl(y['b'], st)
+            return (a[0] and b[0], a[1] and b[1])
+        if was is not None:
+            return (was in I0, was in I1)
+        return (False, False)
+
+    def drop(st, v):
+        E, W, I0, I1 = st
+        if v in I0 or v in I1:
+            return (E, W, I0 - {v}, I1 - {v})
+        return st
+
+    def tr(e, st):
+        E, W, I0, I1 = st
+        ev = e['ev']
+        if ev == 'store':
+            v = _local_cell(e['lhs'])
+            if v is None:
+                return st
+            root = v.split('.')[0]
+            if E:
+                return st
+            if e.get('op') == '=' and e.get('rhs') is not None and root not in addr_taken:
+                i0, i1 = impl(e['rhs'], st)
+                return (E, W, (I0 | {v}) if i0 else (I0 - {v}), (I1 | {v}) if i1 else (I1 - {v}))
+            return drop(st, v)
+        if ev == 'decl':
+            n = e.get('name')
+            if n is None or E:
+                return st
+            return (E, W, frozenset(w for w in I0 if w != n and not w.startswith(n + '.')),
+                    frozenset(w for w in I1 if w != n and not w.startswith(n + '.')))
+        if ev == 'call':
+            args = e.get('args') or []
+            cal = e.get('callee')
+            if cal in h08.DETACH + ('iv_list_splice', 'iv_list_splice_tail') and len(args) == 2:
+                if is_batch(args[1]):
+                    return (False, W, frozenset(), frozenset())          # the batch is filled
+                if is_batch(args[0]) and h08.list_class(args[1], batches) == 'pending':
+                    # what is left goes back where the next run finds it -- if the list is the owner's, under its
+                    # mutex (R-C08b), and a wake-up follows
+                    if K.EVL in held(ls.get(pt(e))):
+                        return (True, True, frozenset(), frozenset())
+                    return st
+            if cal in ADD and len(args) == 2 and is_batch(args[1]):
+                return (False, W, frozenset(), frozenset())
+            if _wakes_owner(e):
+                W = False
+            elif W and cal in ADD and len(args) == 2 and any(
+                    x.get('k') == 'member' and (x.get('record'), x.get('field')) == K.LOCAL for x in walk(args[0])):
+                W = False                   # (iv_task_register inlined into this context: the task's link is queued)
+            return (E, W, I0, I1)
+        return st
+
+    def edge(blk, si, st):
+        t = blk.term
+        if not t or t.get('cond') is None or len(blk.succ) != 2 or t.get('cls') in ('SwitchStmt', 'MethodDispatch'):
+            return st
+        if st[1]:
+            for (op, lc, rc, l, r) in norm_cond(t['cond'], si == 0):
+                c = strip(l) if isinstance(l, dict) else None
+                if rc != '0' or not isinstance(c, dict) or c.get('k') != 'call' or not c.get('args'):
+                    continue
+                m = h08.member_of(c['args'][0])
+                # iv_task_registered(&S->LOCAL) is true, or (the same, with the task API inlined) the task's own link
+                # does not read as unqueued: the owner-local task is registered already and will run them
+                if (op == '!=' and c.get('callee') == 'iv_task_registered' and last_member(m) == K.LOCAL) or \
+                        (op == '==' and c.get('callee') == 'iv_list_empty' and m is not None and m.get('record') in ('iv_task_', 'iv_task')
+                         and any(x.get('k') == 'member' and (x.get('record'), x.get('field')) == K.LOCAL for x in walk(m['base']))):
+                    st = (st[0], False, st[2], st[3])
+        if st[0]:
+            return st
+        i0, i1 = impl(t['cond'], st)
+        if (si == 0 and i1) or (si == 1 and i0):
+            return (True, st[1], frozenset(), frozenset())
+        return st
+
+    def join(a, b):
+        if a[0] and b[0]:
+            return (True, a[1] or b[1], frozenset(), frozenset())
+        if a[0]:
+            return (False, a[1] or b[1], b[2], b[3])
+        if b[0]:
+            return (False, a[1] or b[1], a[2], a[3])
+        return (False, a[1] or b[1], a[2] & b[2], a[3] & b[3])
+    return forward(g, (True, False, frozenset(), frozenset()), tr, join, edge=edge)
+
+
+def batch_drained(ctx):
+    prog = ctx.prog
+    ctxs, _ = h08.root_contexts(prog, h08.is_event_site, 'runner', anchor=h08.touches_event_handler)
+    acc = Acc()
+    n = 0
+    for root, g, sites in ctxs:
+        det = _detaches(g)
+        if not det:
+            raise AnalysisBroken('runner (%s): detach of the pending list not found' % root.name)
+        batches = {canon(e['args'][1]) for e in det}
+        ls = locksets(g)
+        instate, ev_in = _batch_known_empty(g, batches, ls)
+        rets = [(e, ev_in[(pb, pi)]) for (pb, pi, e) in exits_of(g) if (pb, pi) in ev_in]
+        final = instate.get(g.exit)
+        if final is None and not rets:
+            raise AnalysisBroken('%s: no return reachable' % root.name)
+        states = [s for (_, s) in rets] + ([final] if final is not None else [])
+        stranded = [e for (e, s) in rets if not s[0]]
+        unwoken = [e for (e, s) in rets if s[0] and s[1]]
+        ok_e = all(s[0] for s in states)
+        ok_w = all(not s[1] for s in states)
+        what = ', '.join(sorted(batches))
+        for d in det:
+            n += 1
+            acc.add('R-C08h', '%s:batch-empty-at-return' % root.name, d['loc'], ok_e,
+                    'every event detached from the pending list (%s) is run before the entry point returns: on every path from '
+                    'the detach to a return the local batch %s was found empty since it was last filled (an emptiness test of the '
+                    'batch, or a value that implies its outcome), or what was left was spliced back onto the owner\'s pending list '
+                    'under the mutex; an event left on the dead on-stack list reads as queued for ever: that post and every later '
+                    'one to it are never delivered' % (describe(d), what), root.q,
+                    None if ok_e else (path_to(g, stranded[0]) if stranded else None))
+            acc.add('R-C08h', '%s:requeued-batch-is-woken' % root.name, d['loc'], ok_w,
+                    'where the rest of the batch is put back on the pending list, a wake-up of the owner (local task / raw-event '
+                    'post / poll-method send) follows before the return', root.q,
+                    None if ok_w else (path_to(g, unwoken[0]) if unwoken else None))
+    acc.emit(ctx)
+
+
+# --------------------------------------------------------------------------
 # R-C08d: who enters the runner, for which state
 # --------------------------------------------------------------------------
 
@@ -916,6 +1190,7 @@ def who_runs(ctx):
         raise AnalysisBroken('no installed handler reaches the iv_event handler call')
 
     # 3. the state whose events are run: the cookie (handler roots) or the calling thread's own state
+    handlers = {q for q, k in kind.items() if k == 'handler'}
     for root, g, sites in ctxs:
         for d in _detaches(g):
             X = h08.container_ptr(d['args'][0], K.PENDING)
@@ -944,15 +1219,20 @@ def who_runs(ctx):
                         kinds_.add('unknown')
                 origin = 'unknown' if 'unknown' in kinds_ else ('cookie' if 'cookie' in kinds_ else 'own')
                 if origin == 'cookie' and kind.get(root.q) in ('poll slot', 'wrapper') \
-                        and all(_param_is_own(prog, root, pn, polls, taken) for pn in handed):
-                    # not a cookie: a state pointer handed down, unchanged, by callers that all obtained it
-                    # from iv_get_state() (struct iv_state is private to the library: every caller is in view)
+                        and all(_param_is_own(prog, root, pn, polls, taken, handlers=handlers) for pn in handed):
+                    # not a cookie of its own: a state pointer handed down, unchanged, by callers that all obtained it
+                    # from iv_get_state() -- or that are themselves installed handlers (classified above: address only
+                    # ever installed as handler of a state's local task / kick raw event with that state as cookie) and
+                    # pass their never-reassigned cookie on (struct iv_state is private to the library: every caller
+                    # is in view)
                     origin = 'own'
             ok = origin == 'own' or (origin == 'cookie' and kind.get(root.q) == 'handler')
             acc.add('R-C08d', 'runner:runs-state-of:%s' % root.name, d['loc'], ok,
                     'entered through %s the runner detaches the pending list of %s: %s' % (
                         root.name, canon(X) if X is not None else '?',
-                        {'own': 'the calling thread\'s state (iv_get_state())',
+                        {'own': 'the calling thread\'s state (iv_get_state())' if kind.get(root.q) == 'handler' or not handed else
+                                'a parameter that every caller fills with iv_get_state() or, being an installed handler of the '
+                                'state\'s own task / raw event, with its cookie',
                          'cookie': 'the cookie its handler was installed with (or, where the code says so, iv_get_state())'
                          if kind.get(root.q) == 'handler' else 'a parameter that not every caller fills with iv_get_state()',
                          'unknown': 'a state of unknown origin'}[origin]), root.q)
@@ -1005,11 +1285,13 @@ def who_runs(ctx):
                detail='the poll slot of a method with an event_send slot runs the pending events', fn=pf.q if pf is not None else None)
 
 
-def _param_is_own(prog, f, pname, polls, taken, depth=0):
-    """Parameter pname (a struct iv_state *) of f always carries the calling thread's own state: f is only
+def _param_is_own(prog, f, pname, polls, taken, depth=0, handlers=frozenset()):
+    """Parameter pname (a struct iv_state *) of f always carries the state whose events the entry may run: f is only
     entered by direct calls (or, for a poll slot, through method->poll) and every call passes either
     iv_get_state() -- directly or through a local that holds nothing else -- or the caller's own parameter for
-    which the same holds."""
+    which the same holds, or the caller is an installed handler (handlers: entry points whose address is only ever
+    installed as handler of a state's own local task / kick raw event, with that state as cookie: runner:installed-as,
+    runner:cookie) and passes its own, never reassigned cookie parameter: the state whose wake-up fired."""
     idx = [i for i, p in enumerate(f.params) if p['name'] == pname and p.get('record') == 'iv_state']
     if not idx or depth > 4:
         return False
@@ -1035,13 +1317,18 @@ def _param_is_own(prog, f, pname, polls, taken, depth=0):
             v = strip(a).get('_was') if isinstance(strip(a), dict) else None
             if v is None:
                 return False
+        if c.q in handlers:
+            # the only parameter of a task / raw-event handler is the cookie it was installed with
+            if len(c.params) == 1 and v == c.params[0]['name'] and v not in h08.written_vars(c):
+                continue
+            return False
         if v in h08.written_vars(c) or any(e2['ev'] == 'store' and h08.var_name(e2['lhs']) == v for e2 in c.events()):
             defs = [e2 for e2 in c.events() if e2['ev'] == 'store' and h08.var_name(e2['lhs']) == v]
             addr = any(isinstance(strip(x), dict) and strip(x).get('k') == 'addr' and h08.var_name(strip(x)['e']) == v
                        for e2 in c.events() if e2['ev'] == 'call' for x in e2.get('args', []))
             if addr or not defs or not all(d.get('op') == '=' and 'rhs' in d and _is_own_state(d['rhs']) for d in defs):
                 return False
-        elif not _param_is_own(prog, c, v, polls, taken, depth + 1):
+        elif not _param_is_own(prog, c, v, polls, taken, depth + 1, handlers):
             return False
     return True
 
